@@ -3619,10 +3619,12 @@ func restartSubtree(ctx context.Context, node *restartNode, parent *PID, tree *t
 	// Wait until no worker holds the actor before re-initializing. The
 	// MPSC mailbox is single-consumer; restarting while a worker is mid
 	// Dequeue would be a data race.
+	verifhook.At("restart.wait", &pid.schedState, 0, 0)
 	for pid.schedState.Load() == dispatchProcessing {
 		runtime.Gosched()
 	}
 
+	verifhook.At("restart.init", &pid.schedState, 0, 0)
 	pid.resetBehavior()
 	if err := pid.init(ctx); err != nil {
 		return err
